@@ -75,3 +75,58 @@ Example C15_example :
   = ([None; Some (VStr [97%Z], 2); Some (VStr [98%Z], 2)],
      [[VNull; VInt 5; VNull]; [VInt 1; VInt 10; VInt 11]; [VInt 2; VNull; VInt 20]]).
 Proof. reflexivity. Qed.
+
+(* ---------------------------------------------------------------------------------------------------------------
+   Tie by translation (PYMINI.md): Gen/SrcExec.v's exec_pivot_fill is regenerated on every run from the SOURCE of the
+   EvalPivot branch of query_execute.execute_query (statements `pivoted = []` .. `return columns, pivoted`, selected by
+   structure).  Interpreted with the primitives of Model/PrimsExec.v it returns, for ALL rows and pivot columns, the
+   rows of [pivot]: sorted by the first pivot column (the sort key is the translated nullitemgetter), grouped, each
+   row's remaining columns written into the block of its key.  The statements that compute the key list, `other`
+   (a lambda) and the header use lambdas / a set comprehension / f-strings and are outside the translated fragment:
+   the key list enters as Model/Pivot.v's pivot_keys, `other` as an opaque callable, the header only by its length. *)
+From Coq Require Import String.
+From Verif Require Import Model.PyMini Model.PrimsExec Gen.SrcExec Proofs.SrcExec Proofs.SrcExecPivot.
+
+Theorem C15_source_pivot : forall (call_ref : nat -> list pv -> pv) (ncols c1 c2 ko : nat) (rows : list row)
+    (cols : list pv),
+  (forall args, call_ref 1%nat args = partial_clo 1 args) ->
+  (forall r : row, call_ref ko [row_pv r] = PTuple (map PV (other (other_cols ncols c1 c2) r))) ->
+  Forall (fun r => (c1 < List.length r)%nat /\ (c2 < List.length r)%nat) rows ->
+  List.length cols = List.length (pivot_header (pivot_keys c2 rows) (other_cols ncols c1 c2)) ->
+  call_fun call_ref (prims_exec call_ref exec_nig_single exec_nig_multi 1) exec_pivot_fill
+    [PList (map row_pv rows); idx_pv c1; PTuple cols; PList (map PV (pivot_keys c2 rows)); idx_pv c2;
+     PInt (Z.of_nat (List.length (other_cols ncols c1 c2))); PRef ko] =
+  Ok (PTuple [PTuple cols; PList (map row_pv (snd (pivot ncols c1 c2 rows)))]).
+Proof. exact pivot_src. Qed.
+Print Assumptions C15_source_pivot.
+
+(* the same for ANY key list that contains every row's second pivot column and any remaining-column list *)
+Theorem C15_source_pivot_fill : forall (call_ref : nat -> list pv -> pv),
+  (forall args, call_ref 1%nat args = partial_clo 1 args) ->
+  forall (ks : list value) (oc : list nat) (c2 ko : nat),
+  (forall r : row, call_ref ko [row_pv r] = PTuple (map PV (other oc r))) ->
+  forall (cols : list pv) (c1 : nat) (rows : list row),
+  Forall (fun r => (c1 < List.length r)%nat) rows -> Forall (row_ok ks c2) rows ->
+  call_fun call_ref (prims_exec call_ref exec_nig_single exec_nig_multi 1) exec_pivot_fill
+    [PList (map row_pv rows); idx_pv c1; PTuple cols; PList (map PV ks); idx_pv c2; PInt (Z.of_nat (List.length oc));
+     PRef ko] =
+  Ok (PTuple [PTuple cols;
+              PList (map row_pv (map (made ks oc c2 cols) (groupby c1 None (isort (on (cell c1) val_le) rows))))]).
+Proof. exact pivot_fill_src. Qed.
+Print Assumptions C15_source_pivot_fill.
+
+(* Non-vacuity: the translated statements run by the interpreter on the rows of C15_example (keys a, b; `other` = column 2) *)
+Example C15_source_example :
+  let cr : nat -> list pv -> pv := fun k args =>
+    match k, args with
+    | 1%nat, _ => partial_clo 1 args
+    | 5%nat, [PTuple l] => PTuple [nth 2 l PNone]
+    | _, _ => PNone
+    end in
+  call_fun cr (prims_exec cr exec_nig_single exec_nig_multi 1) exec_pivot_fill
+    [PList (map row_pv [[VInt 2; VStr [98%Z]; VInt 20]; [VInt 1; VStr [97%Z]; VInt 10]; [VInt 1; VStr [98%Z]; VInt 11];
+                        [VNull; VStr [97%Z]; VInt 5]]);
+     idx_pv 0; PTuple [PNone; PNone; PNone]; PList [PV (VStr [97%Z]); PV (VStr [98%Z])]; idx_pv 1; PInt 1; PRef 5]
+  = Ok (PTuple [PTuple [PNone; PNone; PNone];
+                PList (map row_pv [[VNull; VInt 5; VNull]; [VInt 1; VInt 10; VInt 11]; [VInt 2; VNull; VInt 20]])]).
+Proof. vm_compute. reflexivity. Qed.
